@@ -502,10 +502,15 @@ func RunCheck(o Options) int {
 
 	// isolated confirmation of watchdog suspects (nothing else running)
 	unconfirmed, confirmed := 0, 0
+	// cheapest suspects first: their allowance is the shortest
+	var suspectIdx []int
 	for i := range outs {
-		if !outs[i].suspect {
-			continue
+		if outs[i].suspect {
+			suspectIdx = append(suspectIdx, i)
 		}
+	}
+	sort.SliceStable(suspectIdx, func(a, b int) bool { return outs[suspectIdx[a]].c.Cost < outs[suspectIdx[b]].c.Cost })
+	for _, i := range suspectIdx {
 		if confirmed >= maxConfirmed {
 			outs[i].res.Verdict = Inconclusive
 			outs[i].res.Msg = fmt.Sprintf("watchdog fired; not re-run in isolation because %d other cases were already confirmed as not returning: %s", maxConfirmed, outs[i].res.Msg)
